@@ -56,14 +56,20 @@ impl Condvar {
 
         self.to_wake.push(cur.clone());
 
+        #[cfg(may_verif)]
+        may_queue::verif::point(may_queue::verif::site::CV_WAIT_PUSHED, self as *const _ as usize);
         // unlock the mutex to let other continue
         mutex::unlock_mutex(lock);
+        #[cfg(may_verif)]
+        may_queue::verif::point(may_queue::verif::site::CV_WAIT_UNLOCKED, self as *const _ as usize);
         if let Some(c) = cancel.as_ref() {
             c.enable_cancel();
         }
 
         // wait until coming back
         let ret = cur.park(dur);
+        #[cfg(may_verif)]
+        may_queue::verif::point(may_queue::verif::site::CV_WAIT_WOKEN, self as *const _ as usize);
         // disable cancel panic
         if let Some(c) = cancel.as_ref() {
             c.disable_cancel();
@@ -75,12 +81,16 @@ impl Condvar {
             // when in a cancel state, could cause problem for the lock
             // make notify never panic by disable the cancel bit
 
+            #[cfg(may_verif)]
+            may_queue::verif::point(may_queue::verif::site::CV_ERR_CHECK, self as *const _ as usize);
             // check the unpark status
             if cur.is_unparked() {
                 self.notify_one();
             } else {
                 // register
                 cur.set_release();
+                #[cfg(may_verif)]
+                may_queue::verif::point(may_queue::verif::site::CV_ERR_SETREL, self as *const _ as usize);
                 // re-check unpark status
                 if cur.is_unparked() && cur.take_release() {
                     self.notify_one();
@@ -172,7 +182,11 @@ impl Condvar {
         let w = self.to_wake.pop();
 
         if let Some(w) = w {
+            #[cfg(may_verif)]
+            may_queue::verif::point(may_queue::verif::site::CV_NOTIFY_POPPED, self as *const _ as usize);
             w.unpark();
+            #[cfg(may_verif)]
+            may_queue::verif::point(may_queue::verif::site::CV_NOTIFY_UNPARKED, self as *const _ as usize);
             if w.take_release() {
                 self.notify_one();
             }
